@@ -21,7 +21,8 @@ LOOPS == -7000002     \* the default chain did not terminate
 JAM   == -1           \* no transition: the match loop stops here
 Bad(x) == x = OOB \/ x = LOOPS
 
-At(a, i) == IF i >= 0 /\ i < Len(a) THEN a[i + 1] ELSE OOB
+In(a, i) == i >= 0 /\ i < Len(a)
+At(a, i) == IF In(a, i) THEN a[i + 1] ELSE OOB
 
 TRAILING_MASK      == 8192     \* YY_TRAILING_MASK 0x2000
 TRAILING_HEAD_MASK == 16384    \* YY_TRAILING_HEAD_MASK 0x4000
@@ -51,7 +52,7 @@ NextCmpRaw(T, s, c) == Chase(T, s, c, Len(T.base) + 2)
 NextCmp(T, s, c) == LET n == NextCmpRaw(T, s, c) IN IF n = T.jamstate THEN JAM ELSE n
 
 \* full table (-Cf): jam entries are <= 0
-NextFullRaw(T, s, c) == LET row == At(T.nxt2, s) IN IF Bad(row) THEN OOB ELSE At(row, c)
+NextFullRaw(T, s, c) == IF ~In(T.nxt2, s) THEN OOB ELSE At(T.nxt2[s + 1], c)
 NextFull(T, s, b) ==
   LET n == IF b = 0 /\ Len(T.nultrans) > 0 THEN At(T.nultrans, s)
            ELSE NextFullRaw(T, s, Class(T, b)) IN
@@ -59,8 +60,8 @@ NextFull(T, s, b) ==
 
 \* full-speed table (-CF): states are offsets into the transition array
 NextSpd(T, s, c) ==
-  LET e == At(T.trans, s + c) IN
-  IF Bad(e) \/ Bad(c) THEN OOB ELSE IF e[1] = c THEN s + e[2] ELSE JAM
+  IF Bad(c) \/ ~In(T.trans, s + c) THEN OOB
+  ELSE LET e == T.trans[s + c + 1] IN IF e[1] = c THEN s + e[2] ELSE JAM
 
 TNext(T, s, b) ==
   CASE T.mode = "cmp"     -> NextCmp(T, s, Class(T, b))
@@ -81,7 +82,7 @@ StartState(T, sc, bol) ==   \* sc is 1-based (1 = INITIAL)
 
 \* yy_act chosen in a state (non-REJECT scanners); 0 = not accepting
 Act(T, s) ==
-  IF T.mode = "fullspd" THEN LET e == At(T.trans, s - 1) IN IF Bad(e) THEN OOB ELSE e[2]
+  IF T.mode = "fullspd" THEN (IF In(T.trans, s - 1) THEN T.trans[s][2] ELSE OOB)
   ELSE At(T.accept, s)
 
 \* accepting list of a state (REJECT scanners): yy_acclist[yy_accept[s] .. yy_accept[s+1])
